@@ -152,6 +152,13 @@ def run(ctx):
                         ctx.ob("R4", "reviewed-probe:%s@%s" % (prim.short(o.a["callee"]), prim.short(p)), True, "reviewed: %s" % R4_REVIEWED[(p, o.a["callee"], n)], fn=f, where=prim.site(f, b), how="reviewed exception", nontrivial=False)
                         continue
                     n_use += 1
+                    if n == "ok" and t.target is not None and t.dest is not None and t.dest.is_local():
+                        # `validator(..).ok()?` in a function returning Option: the failure is handed on as None, not dropped
+                        nt = f.blocks[t.target].term
+                        if nt.k == "call" and nt.j.get("callee_name") == "branch" and "Try" in (nt.callee or "") and nt.args and nt.args[0].place is not None and nt.args[0].place.is_local() \
+                                and nt.args[0].place.local == t.dest.local and not f.blocks[t.target].stmts:
+                            ctx.ob("R4", "validator-failure-propagated:%s@%s" % (prim.short(o.a["callee"]), prim.short(p)), True, "%s turns the Err of %s into its own None with `.ok()?`" % (p, o.a["callee"]), fn=f, where=prim.site(f, b), how="who-consumes")
+                            continue
                     ctx.ob("R4", "discarded-validator-result:%s@%s" % (prim.short(o.a["callee"]), prim.short(p)), False,
                            "%s discards the Result of %s with .%s(): a rejected operand would be accepted silently" % (p, o.a["callee"], n), fn=f, where=prim.site(f, b), how="who-consumes")
         # `let _ = validator(..)`: result never read
@@ -165,6 +172,7 @@ def run(ctx):
         flag = _operand_required_flag(fn, arms)
         ctx.ob("R5", "operand-required-flag", flag is not None,
                "no boolean state that is set by every operator arm (! -not -a -and -o -or ,) and cleared when an operand is appended: a binary operator directly after another operator or after '!' cannot be rejected (oracle B11: -a -o , are only legal in state 'have operand')", fn=fn, how="local writers per arm (role-based)")
+        inline_definition = set()
         for tok in list(BINARY) + list(UNARY):
             a = dispatch.arm_of(arms, tok)
             if a is None:
@@ -177,6 +185,26 @@ def run(ctx):
                 b0, t0 = am[0]
                 tr = prim.follow_bool(fn, t0.target, t0.dest.local)
                 ok1 = tr is not None and _leads_to_err_only(fn, tr[1], a, info["join"]) and prim.origin_of_operand(fn, t0.args[1]).strip().k == "var"
+            elif not am:
+                # the same question asked in place (or in a helper spliced in): `args.get(i + 1).is_some_and(|next| *next != ")")`,
+                # its false side leading to Err only
+                for b0, t0 in a.calls:
+                    if t0.j.get("callee_name") != "is_some_and" or t0.dest is None or not t0.dest.is_local() or t0.target is None:
+                        continue
+                    so = prim.origin_of_operand(fn, t0.args[0])
+                    if C.arm_token_abs(fn, a, so, b0) != 1:
+                        continue
+                    co = prim.origin_of_operand(fn, t0.args[1]).strip()
+                    cf_ = ctx.prog.fns.get(str(co.a)[8:]) if co.k == "agg" and str(co.a).startswith("closure:") else None
+                    if cf_ is None:
+                        continue
+                    ctx.analysed_fns.add(cf_.path)
+                    ro = prim.origin_of_local(cf_, 0).strip()
+                    is_ne_paren = ro.k == "call" and ro.a["name"] == "ne" and any(c.get("v") == ")" for c in prim.resolve_promoted(cf_, ro).consts()) and any(x.k == "arg" and x.a.get("idx") == 2 for x in ro.walk())
+                    tr = prim.follow_bool(fn, t0.target, t0.dest.local)
+                    if is_ne_paren and tr is not None and _leads_to_err_only(fn, tr[1], a, info["join"]):
+                        ok1 = True
+                        inline_definition.add(tok)
             ctx.ob("R5", "nothing-follows:%s" % tok, ok1, "operator %s must be rejected when the command line (or the parenthesis) ends right after it (are_more_expressions false => Err)" % tok, fn=fn, where=prim.site(fn, a.entry), how="dispatch table + branch outcome")
             if tok in BINARY:
                 # (2) builder check is `?`-propagated
@@ -201,7 +229,8 @@ def run(ctx):
                 okw = bool(ws) and prim.must_pass(fn, a.entry, [info["join"]], [w[0] for w in ws])
                 ctx.ob("R5", "sets-operand-required:%s" % tok, okw, "operator %s must leave the parser in state 'operand required' on every accepting path" % tok, fn=fn, where=prim.site(fn, a.entry), how="must-pass")
         # what "something follows" means: a next token exists and it is not ')'
-        am = ctx.fn("R5", M + "are_more_expressions")
+        # (where every operator arm asks the question in place, its definition was checked there)
+        am = ctx.prog.fns.get(M + "are_more_expressions") if inline_definition == set(list(BINARY) + list(UNARY)) else ctx.fn("R5", M + "are_more_expressions")
         if am is not None:
             alts = []
             for bb, o in prim.defs_origins(am, 0):
